@@ -284,6 +284,7 @@ static void neuro_scenario(int mode, int wset, int const *sets, int const *fdbs,
 /* the single-neuron controller with its learning rates at zero (constant weights whose magnitudes add up to a power of
    two) and dyadic inputs: every quantity of the documented output equation
    u(k) = u(k-1) + K (wp xp + wi xi + wd xd) / (|wp| + |wi| + |wd|), clamped to the output limits, is exact */
+static long n_learn, n_learn_inrange;
 static void neuro_exact(int kset, int wset, int const *sets, int const *fdbs, int n)
 {
     static double const ks[] = {1, 0.5, 2};
@@ -313,6 +314,38 @@ static void neuro_exact(int kset, int wset, int const *sets, int const *fdbs, in
     }
     fputs("]}\n", f);
     ++n_ctl;
+}
+
+/* the single-neuron controller with learning switched on (rates 1/32, 1/64, 1/64, K = 1, limits +-4, inputs in halves):
+   outputs and weights are logged in units of 1/256 (rounded), and the trace specification re-derives every step from the
+   logged values of the step before within the rounding of that unit:
+     w(k) = w(k-1) + eta e(k) u(k-1) x(k-1)      (x = the three inputs as they stood after the previous step)
+     u(k) = clamp(u(k-1) + K (wp xp + wi xi + wd xd)(k) / (|wp|+|wi|+|wd|)(k)) */
+static void neuro_learn(int wset, int const *sets, int const *fdbs, int n)
+{
+    static double const ws[][3] = {{0.5, 0.25, 0.125}, {-0.5, 0.25, 0.5}, {0.25, -0.75, 0.25}, {1, 1, -1}};
+    a_pid_neuro ctx;
+    memset(&ctx, 0, sizeof(ctx));
+    ctx.pid.summax = 6; ctx.pid.summin = -6; ctx.pid.outmax = 4; ctx.pid.outmin = -4;
+    a_pid_neuro_set_kpid(&ctx, 1, (a_real)(1.0 / 32), (a_real)(1.0 / 64), (a_real)(1.0 / 64));
+    a_pid_neuro_set_wpid(&ctx, (a_real)ws[wset][0], (a_real)ws[wset][1], (a_real)ws[wset][2]);
+    a_pid_neuro_zero(&ctx);
+    FILE *f = out();
+    int inrange = 1;
+    fprintf(f, "{\"f\":\"npidl\",\"width\":%d,\"sh\":[5,6,6],\"lim\":4,\"w0\":[%ld,%ld,%ld],\"steps\":[", (int)sizeof(a_real),
+            lround(ws[wset][0] * 256), lround(ws[wset][1] * 256), lround(ws[wset][2] * 256));
+    for (int i = 0; i < n; ++i)
+    {
+        double o = (double)a_pid_neuro_inc(&ctx, (a_real)(sets[i] / 2.0), (a_real)(fdbs[i] / 2.0));
+        double w[3] = {(double)ctx.wp, (double)ctx.wi, (double)ctx.wd};
+        if (!(fabs(o) <= 4) || !(fabs(w[0]) < 60) || !(fabs(w[1]) < 60) || !(fabs(w[2]) < 60)) { inrange = 0; }
+        fprintf(f, "%s{\"e2\":%d,\"u\":%ld,\"w\":[%ld,%ld,%ld]}", i ? "," : "", sets[i] - fdbs[i], inrange ? lround(o * 256) : 0,
+                inrange ? lround(w[0] * 256) : 0, inrange ? lround(w[1] * 256) : 0, inrange ? lround(w[2] * 256) : 0);
+    }
+    fprintf(f, "],\"inrange\":%d}\n", inrange);
+    ++n_ctl;
+    n_learn_inrange += inrange;
+    ++n_learn;
 }
 
 int main(int argc, char **argv)
@@ -458,10 +491,10 @@ controllers:;
                 fb[i] = (int)((s >> 20) % 9) - 4;
             }
             neuro_scenario(mode, c % 3, st, fb, 8);
-            if (mode == 1) { neuro_exact(c % 3, c % 6, st, fb, 8); neuro_exact((c + 1) % 3, (c / 3) % 6, st, fb, 8); }
+            if (mode == 1) { neuro_exact(c % 3, c % 6, st, fb, 8); neuro_exact((c + 1) % 3, (c / 3) % 6, st, fb, 8); neuro_learn(c % 4, st, fb, 8); }
         }
     }
     for (int i = 0; i < nb; ++i) { fclose(fo[i]); }
-    printf("SUMMARY {\"events\":%ld,\"mf\":%ld,\"opr\":%ld,\"controllers\":%ld}\n", n_events, n_mf, n_opr, n_ctl);
+    printf("SUMMARY {\"events\":%ld,\"mf\":%ld,\"opr\":%ld,\"controllers\":%ld,\"learn\":%ld,\"learn_inrange\":%ld}\n", n_events, n_mf, n_opr, n_ctl, n_learn, n_learn_inrange);
     return 0;
 }
